@@ -41,6 +41,14 @@ type Case struct {
 	Quiet []uint32 `json:"quiet,omitempty"`
 }
 
+// perm draws an order for the child IEs of a Create / Update PDR (0 = as built: PDR ID first, URR IDs last).
+func perm(t *rapid.T) uint32 {
+	if rapid.IntRange(0, 2).Draw(t, "permute") != 0 {
+		return 0
+	}
+	return rapid.Uint32Range(1, 1<<32-1).Draw(t, "perm")
+}
+
 type model struct {
 	quiet map[uint32]bool
 	urr   map[uint32]bool
@@ -228,7 +236,7 @@ func gen(t *rapid.T) Case {
 		if rapid.Bool().Draw(t, "pdr") {
 			l := pickURRs(false)
 			pdr[p] = setOf(l)
-			c.Est = append(c.Est, stack.RuleOp{Verb: "create", Kind: "PDR", ID: p, Prec: 1, URRs: l})
+			c.Est = append(c.Est, stack.RuleOp{Verb: "create", Kind: "PDR", ID: p, Prec: 1, URRs: l, Perm: perm(t)})
 		}
 	}
 	n := rapid.IntRange(1, 20).Draw(t, "n")
@@ -285,7 +293,7 @@ func gen(t *rapid.T) Case {
 				}
 				pdr[p] = setOf(l)
 				touchedP[p] = true
-				rules = append(rules, stack.RuleOp{Verb: "create", Kind: "PDR", ID: p, Prec: 1, URRs: l})
+				rules = append(rules, stack.RuleOp{Verb: "create", Kind: "PDR", ID: p, Prec: 1, URRs: l, Perm: perm(t)})
 			case "removepdr":
 				p := uint32(rapid.IntRange(1, 4).Draw(t, "pdr"))
 				l, ok := pdr[p]
@@ -343,7 +351,7 @@ func gen(t *rapid.T) Case {
 				}
 				pdr[p] = ns
 				touchedP[p] = true
-				rules = append(rules, stack.RuleOp{Verb: "update", Kind: "PDR", ID: p, Prec: 2, URRs: nl})
+				rules = append(rules, stack.RuleOp{Verb: "update", Kind: "PDR", ID: p, Prec: 2, URRs: nl, Perm: perm(t)})
 			}
 		}
 		if len(rules) > 0 {
